@@ -106,6 +106,9 @@ func dtTok(r rune) string {
 	if r == utf8.RuneError || !isXMLChar(r) || (r < 0x20 && r != '\t' && r != '\n' && r != '\r') {
 		return "CTL"
 	}
+	if r == 0x4e2d {
+		return "CJK"
+	}
 	return string(r)
 }
 
